@@ -135,3 +135,253 @@ theorem sse_partial_event (b p : Bytes) (o : List Bytes)
     rfl
 
 end GB.C13
+
+namespace GB.C13
+open GB
+
+/-! ### UTF-8 -/
+
+def U8.depth : U8 → Nat
+  | .start => 0 | .c1 => 1 | .c2 => 2 | .c2e0 => 2 | .c2ed => 2 | .c3 => 3 | .c3f0 => 3 | .c3f4 => 3 | .bad => 0
+
+def isContByte (b : UInt8) : Prop := 0x80 ≤ b.toNat ∧ b.toNat < 0xC0
+
+set_option maxRecDepth 100000 in
+theorem runeStart_ofNat : ∀ n, n < 256 → (runeStart (UInt8.ofNat n) = true ↔ ¬ (0x80 ≤ n ∧ n < 0xC0)) := by decide
+
+theorem runeStart_iff (b : UInt8) : runeStart b = true ↔ ¬ isContByte b := by
+  have h := runeStart_ofNat b.toNat b.toNat_lt
+  rw [UInt8.ofNat_toNat] at h
+  exact h
+
+theorem fold_bad (s : Bytes) : s.foldl utf8Step .bad = .bad := by
+  induction s with
+  | nil => rfl
+  | cons b rest ih => simpa [utf8Step] using ih
+
+/-- in the middle of a rune only a continuation byte is accepted -/
+theorem step_nonstart_runeStart (q : U8) (b : UInt8) (hq : q ≠ .start) (hb : ¬ isContByte b) :
+    utf8Step q b = .bad := by
+  unfold isContByte at hb
+  cases q <;> simp only [utf8Step] <;> (repeat' split) <;> (first | exact absurd rfl hq | rfl | omega)
+
+/-- a continuation byte is rejected or brings the rune one byte closer to its end -/
+theorem step_cont (q : U8) (b : UInt8) (hb : isContByte b) :
+    utf8Step q b = .bad ∨ ((utf8Step q b).depth + 1 = q.depth ∧ utf8Step q b ≠ .bad) := by
+  unfold isContByte at hb
+  cases q <;> simp only [utf8Step] <;> (repeat' split) <;> (first | omega | simp [U8.depth])
+
+theorem depth_le (q : U8) : q.depth ≤ 3 := by cases q <;> decide
+
+theorem four_conts (q : U8) (b1 b2 b3 b4 : UInt8)
+    (h1 : isContByte b1) (h2 : isContByte b2) (h3 : isContByte b3) (h4 : isContByte b4) :
+    utf8Step (utf8Step (utf8Step (utf8Step q b1) b2) b3) b4 = .bad := by
+  have hbad : ∀ b, utf8Step .bad b = .bad := fun _ => rfl
+  have hd := depth_le q
+  rcases step_cont q b1 h1 with e1 | ⟨d1, _⟩
+  · rw [e1, hbad, hbad, hbad]
+  rcases step_cont (utf8Step q b1) b2 h2 with e2 | ⟨d2, _⟩
+  · rw [e2, hbad, hbad]
+  rcases step_cont (utf8Step (utf8Step q b1) b2) b3 h3 with e3 | ⟨d3, _⟩
+  · rw [e3, hbad]
+  rcases step_cont (utf8Step (utf8Step (utf8Step q b1) b2) b3) b4 h4 with e4 | ⟨d4, _⟩
+  · exact e4
+  · omega
+
+/-- valid UTF-8 cut right before a byte that starts a rune is valid UTF-8 -/
+theorem valid_take_at_runeStart (a t : Bytes) (b : UInt8) (h : ValidUTF8 (a ++ b :: t) = true)
+    (hb : runeStart b = true) : ValidUTF8 a = true := by
+  unfold ValidUTF8 at h ⊢
+  rw [List.foldl_append, List.foldl_cons] at h
+  by_cases hq : a.foldl utf8Step .start = .start
+  · simp [hq]
+  · rw [step_nonstart_runeStart _ b hq ((runeStart_iff b).1 hb), fold_bad] at h
+    simp at h
+
+/-- valid UTF-8 never has four continuation bytes in a row -/
+theorem valid_no_four_conts (a t : Bytes) (b1 b2 b3 b4 : UInt8)
+    (h : ValidUTF8 (a ++ b1 :: b2 :: b3 :: b4 :: t) = true) :
+    runeStart b1 = true ∨ runeStart b2 = true ∨ runeStart b3 = true ∨ runeStart b4 = true := by
+  by_cases h1 : runeStart b1 = true
+  · exact Or.inl h1
+  by_cases h2 : runeStart b2 = true
+  · exact Or.inr (Or.inl h2)
+  by_cases h3 : runeStart b3 = true
+  · exact Or.inr (Or.inr (Or.inl h3))
+  by_cases h4 : runeStart b4 = true
+  · exact Or.inr (Or.inr (Or.inr h4))
+  exfalso
+  have c1 : isContByte b1 := Classical.not_not.1 (fun hn => h1 ((runeStart_iff b1).2 hn))
+  have c2 : isContByte b2 := Classical.not_not.1 (fun hn => h2 ((runeStart_iff b2).2 hn))
+  have c3 : isContByte b3 := Classical.not_not.1 (fun hn => h3 ((runeStart_iff b3).2 hn))
+  have c4 : isContByte b4 := Classical.not_not.1 (fun hn => h4 ((runeStart_iff b4).2 hn))
+  unfold ValidUTF8 at h
+  rw [List.foldl_append] at h
+  simp only [List.foldl_cons] at h
+  rw [four_conts _ b1 b2 b3 b4 c1 c2 c3 c4, fold_bad] at h
+  simp at h
+
+end GB.C13
+
+namespace GB.C13
+open GB
+
+/-! ### the cut of `closeReason` on valid UTF-8 -/
+
+theorem validUTF8_nil : ValidUTF8 [] = true := rfl
+
+/-- cutting valid UTF-8 at `truncPoint` leaves valid UTF-8 (the cut is never inside a rune) -/
+theorem truncReason_valid (v : Bytes) (h : ValidUTF8 v = true) : ValidUTF8 (truncReason v) = true := by
+  unfold truncReason maxCloseReasonLen
+  split
+  · exact h
+  · rename_i hlen
+    have hle := truncPoint_le v 123
+    have hlt : truncPoint v 123 < v.length := by omega
+    rcases truncPoint_boundary v 123 with h0 | hb
+    · rw [h0]; rfl
+    · have hsplit : v = v.take (truncPoint v 123) ++ v[truncPoint v 123] :: v.drop (truncPoint v 123 + 1) := by
+        rw [← List.drop_eq_getElem_cons hlt, List.take_append_drop]
+      rw [hsplit] at h
+      exact valid_take_at_runeStart _ _ _ h (hb _ (List.getElem?_eq_getElem hlt))
+
+/-- …and loses at most 3 bytes: one of the bytes 120..123 of valid UTF-8 starts a rune -/
+theorem truncPoint_ge_120 (v : Bytes) (h : ValidUTF8 v = true) (hlen : 123 < v.length) :
+    120 ≤ truncPoint v 123 := by
+  have hd : (v.drop 120).length = v.length - 120 := List.length_drop
+  have hsplit : v = v.take 120 ++ v.drop 120 := (List.take_append_drop 120 v).symm
+  have hg : ∀ i, (v.drop 120)[i]? = v[120 + i]? := fun i => List.getElem?_drop
+  match hm : v.drop 120 with
+  | [] => simp [hm] at hd; omega
+  | [_] => simp [hm] at hd; omega
+  | [_, _] => simp [hm] at hd; omega
+  | [_, _, _] => simp [hm] at hd; omega
+  | b1 :: b2 :: b3 :: b4 :: t =>
+    rw [hm] at hsplit hg
+    rw [hsplit] at h
+    have e1 : v[120]? = some b1 := by have := hg 0; simpa using this.symm
+    have e2 : v[121]? = some b2 := by have := hg 1; simpa using this.symm
+    have e3 : v[122]? = some b3 := by have := hg 2; simpa using this.symm
+    have e4 : v[123]? = some b4 := by have := hg 3; simpa using this.symm
+    rcases valid_no_four_conts _ _ _ _ _ _ h with r | r | r | r
+    · exact truncPoint_ge v 123 120 b1 (by omega) e1 r
+    · have := truncPoint_ge v 123 121 b2 (by omega) e2 r; omega
+    · have := truncPoint_ge v 123 122 b3 (by omega) e3 r; omega
+    · have := truncPoint_ge v 123 123 b4 (by omega) e4 r; omega
+
+theorem truncReason_loses_le3 (v : Bytes) (h : ValidUTF8 v = true) (hlen : 123 < v.length) :
+    120 ≤ (truncReason v).length := by
+  unfold truncReason maxCloseReasonLen
+  have := truncPoint_ge_120 v h hlen
+  have := truncPoint_le v 123
+  simp only [Nat.not_le.2 hlen, ↓reduceIte, List.length_take]
+  omega
+
+/-- a prefix of at most 120 bytes survives the cut of valid UTF-8 -/
+theorem truncReason_keeps_prefix_valid (p v : Bytes) (hp : p.length ≤ 120) (hpv : p <+: v)
+    (h : ValidUTF8 v = true) : p <+: truncReason v := by
+  unfold truncReason maxCloseReasonLen
+  split
+  · exact hpv
+  · rename_i hlen
+    have := truncPoint_ge_120 v h (by omega)
+    obtain ⟨t, rfl⟩ := hpv
+    rw [List.take_append, List.take_of_length_le (by omega)]
+    exact List.prefix_append _ _
+
+/-! ### `strings.ToValidUTF8` -/
+
+theorem runeLen_ok (s : Bytes) (n : Nat) (h : runeLen s = some n) : okPrefix s n = true ∧ 1 ≤ n := by
+  unfold runeLen at h
+  repeat' (split at h)
+  all_goals first
+    | (cases h; exact ⟨by assumption, by omega⟩)
+    | cases h
+
+theorem replacement_valid : replacementChar.foldl utf8Step .start = .start := by decide
+
+/-- the output of `ToValidUTF8` is valid UTF-8, for every input -/
+theorem toValidAux_valid (fuel : Nat) (inv : Bool) (s : Bytes) :
+    (toValidAux fuel inv s).foldl utf8Step .start = .start := by
+  induction fuel generalizing inv s with
+  | zero => simp [toValidAux]
+  | succ fuel ih =>
+    cases s with
+    | nil => simp [toValidAux]
+    | cons c rest =>
+      simp only [toValidAux]
+      split
+      next n hn =>
+        have hok := (runeLen_ok _ _ hn).1
+        simp only [okPrefix, Bool.and_eq_true, beq_iff_eq] at hok
+        rw [List.foldl_append, hok.2]
+        exact ih _ _
+      next =>
+        rw [List.foldl_append]
+        cases inv
+        · simp only [Bool.false_eq_true, ↓reduceIte, replacement_valid]; exact ih _ _
+        · simp only [↓reduceIte, List.foldl_nil]; exact ih _ _
+
+theorem toValidUTF8_valid (s : Bytes) : ValidUTF8 (toValidUTF8 s) = true := by
+  unfold ValidUTF8 toValidUTF8
+  rw [toValidAux_valid]
+  rfl
+
+/-- an ASCII byte is copied -/
+theorem toValidUTF8_ascii_cons (a : UInt8) (s : Bytes) (ha : a.toNat < 0x80) :
+    toValidUTF8 (a :: s) = a :: toValidUTF8 s := by
+  have hr : runeLen (a :: s) = some 1 := by
+    simp [runeLen, okPrefix, utf8Step, ha]
+  simp [toValidUTF8, toValidAux, hr]
+
+theorem toValidUTF8_ascii_prefix (p m : Bytes) (hp : ∀ x ∈ p, x.toNat < 0x80) :
+    toValidUTF8 (p ++ m) = p ++ toValidUTF8 m := by
+  induction p with
+  | nil => rfl
+  | cons a rest ih =>
+    rw [List.cons_append, toValidUTF8_ascii_cons a _ (hp a (by simp)), ih (fun x hx => hp x (by simp [hx]))]
+    rfl
+
+end GB.C13
+
+namespace GB.C13
+open GB
+
+/-! ### `code X: ` for every `codes.Code` (a uint32), including `Code(n)` -/
+
+theorem digit_byte_ascii (ch : Char) (h : ch.isDigit = true) : (UInt8.ofNat ch.toNat).toNat < 0x80 := by
+  simp only [Char.isDigit, Bool.and_eq_true, decide_eq_true_eq, ge_iff_le, UInt32.le_iff_toNat_le] at h
+  have h2 : ch.toNat ≤ 57 := h.2
+  simp only [UInt8.toNat_ofNat']
+  omega
+
+theorem codeName_props (c : Nat) (hc : c < 2 ^ 32) :
+    (∀ x ∈ codeName c, x.toNat < 0x80) ∧ (codeName c).length ≤ 18 := by
+  unfold codeName
+  split
+  all_goals try (exact ⟨by decide, by decide⟩)
+  constructor
+  · intro x hx
+    simp only [List.mem_append, List.mem_map, List.mem_cons, List.mem_nil_iff, or_false] at hx
+    rcases hx with (hx | ⟨ch, hch, rfl⟩) | hx
+    · rcases hx with rfl | rfl | rfl | rfl | rfl <;> decide
+    · exact digit_byte_ascii ch (Nat.isDigit_of_mem_toDigits (by decide) (by decide) hch)
+    · subst hx; decide
+  · have := (Nat.length_toDigits_le_iff (b := 10) (n := c) (k := 10) (by decide) (by decide)).2 (by omega)
+    simp only [List.length_append, List.length_map, List.length_cons, List.length_nil]
+    omega
+
+theorem reasonPrefix_ascii (c : Nat) (hc : c < 2 ^ 32) : ∀ x ∈ reasonPrefix c, x.toNat < 0x80 := by
+  intro x hx
+  simp only [reasonPrefix, List.mem_append, List.mem_cons, List.mem_nil_iff, or_false] at hx
+  rcases hx with (hx | hx) | hx
+  · rcases hx with rfl | rfl | rfl | rfl | rfl <;> decide
+  · exact (codeName_props c hc).1 x hx
+  · rcases hx with rfl | rfl <;> decide
+
+theorem reasonPrefix_len (c : Nat) (hc : c < 2 ^ 32) : (reasonPrefix c).length ≤ 25 := by
+  have := (codeName_props c hc).2
+  simp only [reasonPrefix, List.length_append, List.length_cons, List.length_nil]
+  omega
+
+end GB.C13
